@@ -526,6 +526,20 @@ calls.run_call = _patched2
 def thread_work(shard, tier, viols, counters, samples, keys, sets):
     rng = C.rng_for('C13', shard['name'])
     specs = thread_specs(rng, tier)
+    # a few modules of this shard's own choice for the one-module family (valid and invalid arguments mixed)
+    mods = C.number_modules()
+    onemods = rng.sample(sorted(mods), 4 if tier == 'quick' else 30)
+    nid = max(s['id'] for s in specs) + 1 if specs and isinstance(specs[0].get('id'), int) else len(specs)
+    for name in onemods:
+        nums = C.corpus(name, limit=4, rng=rng)
+        args = list(nums)
+        for v in nums[:2]:
+            args += [v[:-1] + ('0' if v[-1:] != '0' else '1'), v[:-1], ' ' + v.lower() + ' ']
+        for a in args:
+            for f in ('validate', 'is_valid', 'format', 'compact'):
+                if hasattr(mods[name], f):
+                    specs.append({'module': name, 'func': f, 'args': [a], 'id': nid, 'onemod': True})
+                    nid += 1
     ref = oracle(specs, '0')
     evals = len(specs)
     ntrials = 8 if tier == 'quick' else 60
@@ -546,7 +560,7 @@ def thread_work(shard, tier, viols, counters, samples, keys, sets):
                 p.insert(0, first)
         # every third trial is focused on one family of shared state: all threads hammer it in random order
         if t % 3 == 1:
-            fam = rng.choice(['luhn', 'modules', 'iban', 'vat', 'registries', 'lookalike', 'tables', 'nace'])
+            fam = rng.choice(['luhn', 'modules', 'iban', 'vat', 'registries', 'lookalike', 'tables', 'nace', 'one-module', 'one-module', 'one-module'])
             if fam == 'luhn':
                 group = [s for s in specs if s['module'] in ('luhn', 'iso7064.mod_37_2')]
             elif fam == 'modules':
@@ -561,6 +575,11 @@ def thread_work(shard, tier, viols, counters, samples, keys, sets):
                 group = [s for s in specs if s['module'] in ('de.handelsregisternummer', 'de.stnr', 'nz.bankaccount', 'mac')]
             elif fam == 'nace':
                 group = [s for s in specs if s['module'] == 'eu.nace']
+            elif fam == 'one-module':
+                # every thread inside the same (randomly chosen) module with valid and invalid arguments mixed: a
+                # module-level scratch variable or table shared between calls shows as a wrong answer
+                one = rng.choice(onemods)
+                group = [s for s in specs if s['module'] == one and s.get('onemod')] or [s for s in specs if s['module'] == one]
             else:
                 group = [s for s in specs if s['func'] in ('info', 'split', 'format', 'get_manufacturer', 'get_birth_place', 'get_campus', 'get_label')]
             if fam in ('tables', 'registries') and rng.random() < 0.7:
